@@ -68,15 +68,18 @@ def spelled(smiles, k):
     return v[0]
 
 
-def run_net(seeds, rule_texts, limit):
-    """One clocked call.  Fresh list objects: the function consumes its
-    arguments."""
+def run_net(seeds, rule_texts, limit, rules_obj=None):
+    """One clocked call.  Fresh list objects by default: the function
+    consumes its arguments.  rules_obj: the caller's own list, handed in
+    again on a later call (the function replaces the texts in it by parsed
+    rule objects)."""
     clock = _st['clock']
     out = {}
+    rules_arg = rules_obj if rules_obj is not None else list(rule_texts)
     clock.start(limit)
     try:
         try:
-            o, res = libops.record(_st['gen'], list(seeds), list(rule_texts))
+            o, res = libops.record(_st['gen'], list(seeds), rules_arg)
         finally:
             out['steps'] = clock.stop()
     except StepBudgetExceeded:
@@ -143,11 +146,17 @@ def check_case(case):
     if ref is None:
         return ['closure-too-large'], viols, {'n': None}
     B = budget(len(ref), len(texts))
-    out, res = run_net(seeds, texts, B)
+    rules_obj = None
+    if case.get('reuse'):
+        # the caller keeps one rules list for several calls
+        key = (tuple(case['rules']), tuple(forms))
+        rules_obj = _st.setdefault('kept_rules', {}).setdefault(key,
+                                                               list(texts))
+    out, res = run_net(seeds, texts, B, rules_obj)
     escalated = False
     if out['kind'] == 'hang':
         escalated = True
-        out, res = run_net(seeds, texts, 20 * B)
+        out, res = run_net(seeds, texts, 20 * B, rules_obj)
     info = {'n': len(ref), 'steps': out.get('steps'), 'escalated': escalated}
     if out['kind'] == 'hang':
         viols.append(core.violation(
@@ -213,21 +222,31 @@ def gen_group(run_seed):
     rules = rng.sample(nm.RULE_NAMES, rng.randrange(1, 5))
     cases = []
     nsched = rng.randrange(2, 5)
+    reuse = rng.random() < 0.3     # the caller re-uses its rules list
     for i in range(nsched):
         rs = list(rules)
         ss = list(seeds)
         if i > 0:
-            rng.shuffle(rs)
+            if not reuse:
+                rng.shuffle(rs)
             rng.shuffle(ss)
         # each rule as reaction SMARTS or as RING text (mixed lists are
         # legal); one style per schedule is drawn, then perturbed per rule
         p_ring = rng.choice([0.0, 0.0, 0.5, 1.0])
-        forms = ['ring' if (nm.RULES[r]['smarts'] is None or
-                            rng.random() < p_ring) else 'smarts'
-                 for r in rs]
-        cases.append({'seeds': ss, 'rules': rs, 'forms': forms,
-                      'spell': [0 if i == 0 else rng.randrange(1, 1000)
-                                for _ in ss]})
+        if reuse and i > 0:
+            forms = list(cases[0]['forms'])
+        else:
+            if reuse:
+                p_ring = rng.choice([0.5, 1.0])
+            forms = ['ring' if (nm.RULES[r]['smarts'] is None or
+                                rng.random() < p_ring) else 'smarts'
+                     for r in rs]
+        case = {'seeds': ss, 'rules': rs, 'forms': forms,
+                'spell': [0 if i == 0 else rng.randrange(1, 1000)
+                          for _ in ss]}
+        if reuse:
+            case['reuse'] = True
+        cases.append(case)
         if rng.random() < 0.3:
             # a call that fails, between two schedules of the same network
             fault = rng.choice(['garbage', 'bad_smarts', 'fails_midway'])
@@ -247,12 +266,12 @@ def gen_group(run_seed):
 
 def small_groups(tier):
     """Exhaustive finite part: all seed sets of 1..2 molecules with <= 2
-    heavy atoms x all rule subsets of size <= 3 (quick) / <= 5 (thorough)
+    heavy atoms x all rule subsets of size <= 3 (quick) / <= 4 (thorough)
     x all orders of the rules."""
     groups = []
     seedsets = [[s] for s in SMALL] + \
         [list(p) for p in itertools.combinations(SMALL, 2)]
-    kmax = 3 if tier == 'quick' else 5
+    kmax = 3 if tier == 'quick' else 4
     for ss in seedsets:
         for k in range(1, kmax + 1):
             for sub in itertools.combinations(nm.RULE_NAMES, k):
@@ -289,6 +308,7 @@ def plan(tier, verif_seed):
 
 
 def execute_group(group):
+    _st['kept_rules'] = {}
     log = core.EventLog()
     viols = []
     stats = {'calls': 0, 'steps': 0, 'max_closure': 0, 'escalations': 0,
